@@ -194,14 +194,23 @@ class Oracle:
 class RealTable:
     """one table `T` and a database `db` over it inside a real interpreter, driven by Klong text"""
 
-    def __init__(self, klong, cols, rows):
+    def __init__(self, klong, cols, rows, early_db=True):
         self.klong = klong
         klong("e::[]")
         for i, c in enumerate(cols):
             klong('e::e,,"%s",,%s' % (c, klit([r[i] for r in rows])))
         klong("T::.table(e)")
-        klong('db::.db(:{},"T",,T)')
+        # the database over T is built either now (as the repo's tests do) or right before the
+        # first SQL request; opening a duckdb connection is the slowest step of a history
+        self.has_db = False
+        if early_db:
+            self.ensure_db()
         self.trace = []
+
+    def ensure_db(self):
+        if not self.has_db:
+            self.klong('db::.db(:{},"T",,T)')
+            self.has_db = True
 
     def program(self, op):
         kind = op[0]
@@ -242,6 +251,8 @@ class RealTable:
         text = self.program(op)
         self.trace.append(text)
         try:
+            if kind in ("select", "sqlcount", "sqlcol", "dbschema"):
+                self.ensure_db()
             r = self.klong(text)
         except KlongDbException as e:
             return "err" if kind not in ("select", "sqlcount") else "raises:KlongDbException:" + str(e)[:80]
@@ -330,13 +341,13 @@ def classify(op, pending, orc_before):
     return "table:" + kind
 
 
-def run_history(ctx, klong, drv, cols, rows, ops, label):
+def run_history(ctx, klong, drv, cols, rows, ops, label, early_db=True):
     """one history on the real interpreter, the Lean machine and the list-of-rows oracle.
     Returns False when the history was cut short by a failure."""
     case_head = dict(kind="table", label=label, cols=cols, rows=rows)
     orc = Oracle(cols, rows)
     try:
-        real = RealTable(klong, cols, rows)
+        real = RealTable(klong, cols, rows, early_db)
     except Exception as e:
         ctx.oracle_fail("table:create:raises:" + type(e).__name__, dict(case_head, ops=[]), "table created", repr(e))
         return False
@@ -374,7 +385,7 @@ def run_history(ctx, klong, drv, cols, rows, ops, label):
             if m != impl:
                 ctx.mismatch("Klong.C19.step vs Table (%s)" % op[0], case, m, impl)
                 return False
-        if op[0] in COMMITTING:
+        if op[0] in COMMITTING and not (op[0] == "index" and exp == "err") and exp != "n:0":
             pending = []
         ctx.bump("op:" + op[0])
         ctx.bump("reply:" + exp.split(":")[0])
@@ -423,6 +434,10 @@ def gen_ops(rng, cols, types, rows, n):
     extra = list(EXTRA)
     recent = []
     guard = 0
+    if orc.rows and rng.random() < 0.35:          # a good share of histories is indexed from the start
+        ks = rng.sample(orc.cols, 2 if len(orc.cols) >= 2 and rng.random() < 0.4 else 1)
+        if orc.unique_on(ks) and orc.apply(("index", ks)) is not None:
+            ops.append(("index", ks))
     while len(ops) < n and guard < 10 * n:
         guard += 1
         x = rng.random()
@@ -585,13 +600,13 @@ def run(ctx):
             cols, types, rows = gen_table(ctx.rng)
             n = ctx.rng.randrange(2, 15 if quick else 41)
             ops = gen_ops(ctx.rng, cols, types, rows, n)
-            ok = run_history(ctx, klong, drv, cols, rows, ops, "seeded")
+            ok = run_history(ctx, klong, drv, cols, rows, ops, "seeded", early_db=ctx.rng.random() < 0.3)
             ctx.count(("seeded", cols, repr(rows), repr(ops)), nontrivial=len(ops) >= 2)
             ctx.bump("types:" + "+".join(sorted(set(types))))
             if ok and s < 4:
                 ctx.sample(dict(kind="table", cols=cols, rows=rows, ops=[list(o) for o in ops][:8]))
         for cols, rows, ops in enumerated_histories(2 if quick else 3):
-            run_history(ctx, klong, drv, cols, rows, ops, "enumerated")
+            run_history(ctx, klong, drv, cols, rows, ops, "enumerated", early_db=False)
             ctx.count(("enum", repr(ops)), nontrivial=len(ops) >= 2)
             ctx.bump("enumerated")
     finally:
